@@ -12,6 +12,27 @@ use report::{Ctx, Tier};
 #[global_allocator]
 static GLOBAL: env::alloc::Counting = env::alloc::Counting;
 
+/// Deterministic replacement for libc's `getrandom`, which std (HashMap `RandomState` keys), `rand::OsRng`, `ring`
+/// and `snow` all end up calling. Every thread gets the same pseudo-random stream (a per-thread counter run through
+/// an LCG), so an execution that runs on a fresh thread always sees the same hash-map iteration orders, the same
+/// "random" keys and ids: randomness inside litep2p becomes part of the deterministic execution (DESIGN §2.2).
+#[no_mangle]
+pub unsafe extern "C" fn getrandom(buf: *mut u8, len: usize, _flags: u32) -> isize {
+    thread_local! {
+        static CTR: std::cell::Cell<u64> = const { std::cell::Cell::new(0x9e37_79b9_7f4a_7c15) };
+    }
+    let mut c = CTR.with(|c| {
+        let v = c.get();
+        c.set(v.wrapping_add(0x1000_0000_01b3));
+        v
+    });
+    for i in 0..len {
+        c = c.wrapping_mul(6364136223846793005).wrapping_add(1442695040888963407);
+        *buf.add(i) = (c >> 33) as u8;
+    }
+    len as isize
+}
+
 fn usage() -> ! {
     eprintln!("usage: verif check <id> --tier quick|thorough | verif replay <file> | verif list");
     std::process::exit(2);
